@@ -46,6 +46,14 @@ def primitive(f_raw):
             argvals = subvals(args, [(argnum, box._value) for argnum, box in boxed_args])
             if f_wrapped in notrace_primitives[node_constructor]:
                 return f_wrapped(*argvals, **kwargs)
+            for name, value in kwargs.items():
+                if isbox(value) and value._trace >= trace:
+                    # Keyword arguments are not differentiated. Next to a traced positional argument a
+                    # traced keyword value would silently be taken for a constant (or escape as a Box).
+                    raise TypeError(
+                        f"{getattr(f_raw, '__name__', f_raw)}: the value passed as keyword argument '{name}' is being "
+                        "differentiated; pass it as a positional argument instead"
+                    )
             parents = tuple(box._node for _, box in boxed_args)
             argnums = tuple(argnum for argnum, _ in boxed_args)
             ans = f_wrapped(*argvals, **kwargs)
